@@ -24,6 +24,20 @@ pub enum Ty {
 }
 
 impl Ty {
+    /// nesting depth of list/map/string containers (each multiplies the
+    /// number of symbolic elements by the length bound)
+    pub fn container_depth(&self) -> usize {
+        match self {
+            Ty::P(s) => (*s == "string") as usize,
+            Ty::Enum(_) | Ty::Flags(_) | Ty::Own | Ty::Borrow | Ty::Future(_) | Ty::Stream(_) => 0,
+            Ty::List(e) => 1 + e.container_depth(),
+            Ty::Map(k, v) => 1 + k.container_depth().max(v.container_depth()),
+            Ty::Fixed(e, _) | Ty::Opt(e) => e.container_depth(),
+            Ty::Res(a, c) => a.as_ref().map_or(0, |x| x.container_depth()).max(c.as_ref().map_or(0, |x| x.container_depth())),
+            Ty::Tuple(v) | Ty::Record(v) => v.iter().map(|x| x.container_depth()).max().unwrap_or(0),
+            Ty::Variant(v) => v.iter().flatten().map(|x| x.container_depth()).max().unwrap_or(0),
+        }
+    }
     pub fn has_borrow(&self) -> bool {
         match self {
             Ty::Borrow => true,
